@@ -752,7 +752,8 @@ Fixpoint list_buckets (bs : list (cid * cstate)) (room : nat) (cur_c : cid) (cur
       if cgc b then
         (match room with O => (acc, (c, o0)) | _ => list_buckets r room c o0 acc end)
       else
-        let ids := filter (fun id => o0 <? id) (ids_where e_phy b) in
+        let ids := if o0 =? 0 then ids_where e_phy b   (* zero offset: from the beginning *)
+                   else filter (fun id => o0 <? id) (ids_where e_phy b) in
         let '(items, last, room') := select_n b ids room o0 [] in
         let acc' := acc ++ map (fun it => (c, fst it, snd it)) items in
         match room' with
